@@ -40,7 +40,7 @@ TRUSTED_BASE_COMMON = [
     "Coq 8.16.1 kernel (coqc; vm_compute used for closed finite computations only; no native_compute)",
     "no Axiom/Parameter/Admitted in /verif/coq (grep audit on every run) and Print Assumptions of every property theorem compared with a by-name allow-list",
     "hand-written Gallina model (not generated from the Rust text); tied to /repo by the correspondence run of this check",
-    "OCaml extraction with ExtrOcamlBasic only (Extract Inductive bool/option/list/prod/unit/sumbool as shipped there; no Extract Constant), OCaml 4.13.1, zarith only for decimal <-> positive conversion in the driver",
+    "OCaml extraction with `Require ExtrOcamlBasic` only, i.e. exactly the directives shipped in that file: Extract Inductive bool => bool, option => option, unit => unit, list => list, prod => ( * ), sumbool => bool, sumor => option; Extract Inlined Constant andb => (&&), orb => (||); no directive of our own (numbers positive/N/Z/nat stay inductive); OCaml 4.13.1; zarith only for decimal <-> positive conversion in the drivers",
     "the OCaml driver (parsing of traces, comparison code) and the Rust harness (generators, snapshot dumper) are unverified",
     "rustc/cargo as installed; harness built from /repo's working tree on every run",
 ]
